@@ -21,7 +21,7 @@ DOCS = [["/etc/leading/slash"], [" ends with a star *"], ["*/"], [" first", "/se
         [" Where:", " first, then\n/etc/app/config.toml"], [" a", "b\n/"], [" x\n/**", " y"], ["\n/", ""], [" p\n*/ q", "/r"], [" k\n\n/ after blank", " z"],
         # empty lines: inside one attribute, at its ends, across attributes, nothing but newlines
         [" block\n\n with an empty line "], [" ends with a newline\n", "\nbegins with one"], ["\n\n\n"], [" x\n\n\n/y\n", "", "\n"], ["\n", "\n"]]
-EXPORT_TO = [None, None, None, "sub/", "nested/deep/", "custom/File.ts", "../up/", "shared.ts", "shared.ts", "sub/shared2.ts"]
+EXPORT_TO = [None, None, None, "sub/", "nested/deep/", "custom/File.ts", "../up/", "shared.ts", "shared.ts", "sub/shared2.ts", ".dot/", "sub/.hidden.ts"]
 
 
 class Gen:
@@ -436,6 +436,29 @@ class Gen:
                                                   mk_field("t", ("named", "TailFixed", [("leaf", "u8"), ("named", "Foo", [])]), inline=True),
                                                   mk_field("m", ("vec", ("named", "MidFixed", [("leaf", "u8"), ("leaf", "String"), ("leaf", "bool")]))),
                                                   mk_field("z", ("named", "AllFixed", [("leaf", "u8"), ("leaf", "bool")]))], flatten_ok=False, no_ref=True))
+        # two parameters concretised by two separate attributes (the maps of the attributes are merged)
+        self.add(mk_struct("TwoFixed", "named", [mk_field("a", ("param", 0)), mk_field("b", ("vec", ("param", 1))), mk_field("c", ("option", ("param", 2)))],
+                           params=[("A", None), ("B", None), ("C", None)], concrete=[(0, ("leaf", "i32")), (1, ("leaf", "String"))], concrete_split=True,
+                           flatten_ok=False, no_ref=True))
+        self.add(mk_enum("TwoFixedE", [mk_variant("X", "tuple", [mk_field("_0", ("param", 0))]), mk_variant("Y", "named", [mk_field("m", ("param", 1)), mk_field("c", ("param", 2))])],
+                         params=[("A", None), ("B", None), ("C", None)], concrete=[(2, ("leaf", "bool")), (0, ("leaf", "u8"))], concrete_split=True,
+                         flatten_ok=False, no_ref=True))
+        self.add(mk_struct("TwoFixedHost", "named", [mk_field("h", ("named", "TwoFixed", [("leaf", "i32"), ("leaf", "String"), ("leaf", "bool")])),
+                                                     mk_field("e", ("vec", ("named", "TwoFixedE", [("leaf", "u8"), ("leaf", "String"), ("leaf", "bool")])))],
+                           flatten_ok=False, no_ref=True))
+        # a serde key ts-rs does not know and must leave alone: serde still writes a `skip_deserializing` field
+        self.add(mk_struct("SkipDe", "named", [mk_field("id", ("leaf", "u32")), mk_field("created_at", ("leaf", "String"), skip_de=True),
+                                               mk_field("tags", ("vec", ("leaf", "String")), skip_de=True, rename="Tags")], flatten_ok=True, no_ref=True, no_de=True))
+        self.add(mk_enum("SkipDeE", [mk_variant("Stamp", "tuple", [mk_field("_0", ("leaf", "u32"), skip_de=True)]),
+                                     mk_variant("Pair", "tuple", [mk_field("_0", ("leaf", "u8")), mk_field("_1", ("leaf", "bool"), skip_de=True)]),
+                                     mk_variant("Rec", "named", [mk_field("x", ("leaf", "u8"), skip_de=True)])], tagging=("adjacent", "t", "c"),
+                         flatten_ok=False, no_ref=True, no_de=True))
+        self.add(mk_struct("SkipDeHost", "named", [mk_field("s", ("named", "SkipDe", []), flatten=True), mk_field("e", ("named", "SkipDeE", []))],
+                           flatten_ok=False, no_ref=True, no_de=True))
+        # an empty named struct is `Record<string, never>`; serde flattens it to nothing (ts-rs: inline_flattened() panics, documented)
+        self.add(mk_struct("EmptyN", "named", [], flatten_ok=False, no_ref=True))
+        self.add(mk_struct("FlatEmptyHost", "named", [mk_field("a", ("leaf", "i32")), mk_field("m", ("named", "EmptyN", []), flatten=True)],
+                           flatten_ok=False, no_ref=True))
         # tuple struct / tuple variant with two or more fields, all of them skipped
         self.add(mk_struct("AllSkipT", "tuple", [mk_field("_0", ("leaf", "i32"), skip=True), mk_field("_1", ("leaf", "String"), skip=True)],
                            flatten_ok=False, no_ref=True))
@@ -620,7 +643,7 @@ class Gen:
     def queries(self):
         qs = []
         simple = [("leaf", "i32"), ("leaf", "String"), ("option", ("leaf", "bool")), ("vec", ("leaf", "u64"))]
-        nongen = [d for d in self.defs if not d["params"]]
+        nongen = [d for d in self.defs if not d["params"] and not d.get("no_ref")]
         for d in self.defs:
             if not d["params"]:
                 qs.append(("named", d["ident"], []))
